@@ -1,4 +1,4 @@
-//! C01 — replicas that applied the same ops converge (causal delivery), all 13 types / 15 instantiations.
+//! C01 — replicas that applied the same ops converge (causal delivery), all 13 types / 16 instantiations.
 use super::exempt::Class;
 use super::generic::*;
 use crate::engine::*;
@@ -17,6 +17,7 @@ pub fn property() -> Property {
     add::<SOrswot>(&mut jobs, 24000, 300_000, &[], 0.03);
     add::<SMVReg>(&mut jobs, 24000, 300_000, &[], 0.03);
     add::<MapOrswot>(&mut jobs, 24000, 300_000, &[], 0.03);
+    add::<MapMapOrswot>(&mut jobs, 18000, 200_000, &[], 0.03);
     add::<MapMVReg>(&mut jobs, 24000, 300_000, &[Class::T2], 0.03);
     add::<MapMapMVReg>(&mut jobs, 18000, 200_000, &[Class::T2], 0.03);
     add::<SList>(&mut jobs, 12000, 100_000, &[], 0.03);
